@@ -22,7 +22,7 @@ accept = Fn(F, [SRV, "accept"], ret="r", extra_params=TO,
                "r matches Ok((rx, _)) ==> final(o).accepted is Some && (final(o).accepted->0).0 == self.os_server.sid && (final(o).accepted->0).1 == rx.os_receiver.rid", ["C08"]),
         Clause("ipc.IpcOneShotServer.accept/ensures.value_is_decoded_from_exactly_the_first_message",
                "r matches Ok((_, v)) ==> final(o).decodes == old(o).decodes + 1\n"
-               "&& value_src(v) == ((final(o).accepted->0).2, (final(o).accepted->0).3, wrapped((final(o).accepted->0).4))", ["C08", "C04", "C05"]),
+               "&& value_src(v) == ((final(o).accepted->0).2, wrapped((final(o).accepted->0).3), wrapped((final(o).accepted->0).4))", ["C08", "C04", "C05"]),
         Clause("ipc.IpcOneShotServer.accept/ensures.frame", "final(o).created == old(o).created && final(o).connected == old(o).connected"),
     ],
     rules=[
@@ -34,7 +34,7 @@ accept = Fn(F, [SRV, "accept"], ret="r", extra_params=TO,
 
 msg_new = Fn(F, ["impl OpaqueIpcMessage", "new"], ret="r",
     ensures=[Clause("ipc.OpaqueIpcMessage.new/ensures.same_bytes_same_attachments_in_order",
-                    "r.data@ == data@ && r.os_ipc_channels@ == os_ipc_channels@ && r.os_ipc_shared_memory_regions@ == wrapped(os_ipc_shared_memory_regions@)", ["C08", "C04", "C05"])],
+                    "r.data@ == data@ && r.os_ipc_channels@ == wrapped(os_ipc_channels@) && r.os_ipc_shared_memory_regions@ == wrapped(os_ipc_shared_memory_regions@)", ["C08", "C04", "C05"])],
     rules=[Rule("D29", r"(\w+)\s*\.into_iter\(\)\s*\.map\(Some\)\s*\.collect\(\)", r"wrap_some(\1)", "iterator adapter chain -> stub stating exactly the element-wise wrap")],
     safety_props=["C08"])
 
@@ -63,7 +63,7 @@ def recv_fn(name, kind, err_wrap, props):
                    "final(o).recvs == old(o).recvs.push((self.os_receiver.rid, %s))" % kind, props),
             Clause("ipc.IpcReceiver.%s/ensures.value_is_decoded_from_exactly_what_was_received" % name,
                    "r matches Ok(v) ==> final(o).got is Some && final(o).decodes == old(o).decodes + 1\n"
-                   "&& value_src(v) == ((final(o).got->0).0, (final(o).got->0).1, wrapped((final(o).got->0).2))", ["C01", "C04", "C05"] + props),
+                   "&& value_src(v) == ((final(o).got->0).0, wrapped((final(o).got->0).1), wrapped((final(o).got->0).2))", ["C01", "C04", "C05"] + props),
             Clause("ipc.IpcReceiver.%s/ensures.error_is_the_platforms_or_a_decode_error" % name,
                    "r matches Err(e) ==> (final(o).failed == old(o).failed + 1 && final(o).decodes == old(o).decodes && %s)\n"
                    "|| (final(o).failed == old(o).failed && final(o).decodes == old(o).decodes + 1 && %s)" % (err_wrap[0], err_wrap[1]), props),
